@@ -16,14 +16,32 @@ def build_pipeline(spec):
     Returns (pipeline, [operators in spec order])."""
     p = Pipeline(spec["pid"], Priority[spec["prio"]])
     ops = []
-    for o in spec["ops"]:
-        parents = [ops[i] for i in o["parents"]] or None
-        op = p.new_operator(parents)
+    scratch = []          # one list object re-used for every parents argument and emptied after each call:
+    for o in spec["ops"]:  # the DAG has to keep its own copy of the edges, not the caller's list
+        scratch.extend(ops[i] for i in o["parents"])
+        op = p.new_operator(scratch if scratch else None)
+        del scratch[:]
         for s in o["segs"]:
-            op.add_segment(Segment(baseline_cpu_seconds=s["cpu"], cpu_scaling=s.get("law", "const"),
-                                   memory_gb=s.get("mem"), storage_read_gb=s.get("read", 0.0)))
+            op.add_segment(shared_segment(s))
         ops.append(op)
     return p, ops
+
+
+_SEGMENTS = {}
+
+
+def shared_segment(s):
+    """Segments are immutable descriptions; equal ones are shared between operators, pipelines, runs and tick
+    rates of one process (anything memoised on a Segment must not depend on who ran it before)."""
+    key = (s["cpu"], s.get("law", "const"), s.get("mem"), s.get("read", 0.0),
+           type(s["cpu"]).__name__, type(s.get("mem")).__name__, type(s.get("read", 0.0)).__name__)
+    seg = _SEGMENTS.get(key)
+    if seg is None:
+        if len(_SEGMENTS) > 50000:
+            _SEGMENTS.clear()
+        seg = _SEGMENTS[key] = Segment(baseline_cpu_seconds=s["cpu"], cpu_scaling=s.get("law", "const"),
+                                       memory_gb=s.get("mem"), storage_read_gb=s.get("read", 0.0))
+    return seg
 
 
 def state_of(op):
